@@ -7,7 +7,7 @@ EXPLANATION = (
     "is unchanged, the caller's item is neither inserted nor modified when clone=True, and map lists handed out earlier are not "
     "mutated except by the documented in-place append at the end. "
 )
-OUTSIDE = "Container.clone, XmlPart.clone, Document.clone (zip loading, deepcopy of byte parts): I/O, not encodable"
+OUTSIDE = "Container.clone on zip/folder containers and Document.clone (zip loading, lazily loaded parts, unsaved-edit visibility): I/O, not encodable; XmlPart.clone is covered on an in-memory container only"
 ASSUMPTIONS = ["pre-states are run-length encodings with repeats >= 1 whose maps equal make_cache_map(XML)"]
 TRUSTED = _T
 OBLIGATIONS = vault_obligations(10) + krow_obligations(10) + ktab_obligations(10, 40, 'nr')
@@ -35,3 +35,9 @@ for _fn in ['arow_get_clone']:
                            encodes=["src/odfdo/row.py:Row (all methods used, incl. repeated accessors)", "src/odfdo/cell.py:Cell.__init__,repeated,_set_repeated,clone,get_value,set_value",
                                     "src/odfdo/element.py:Element.insert,delete,index,clone,_get_element_idx2,elements_repeated_sequence", "src/odfdo/element_cached.py (all)"],
                            stubs=["/verif/shadow/lxml (symdom)"]))
+
+for _fn, _secs, _b in (("meta_clone", 26, "Meta part: explicit generator 'G'+s (s <= 2 printable ASCII) set or not before cloning, set_generator_default on both twins, title edited on either"),
+                       ("content_clone", 15, "Content part with one paragraph; a paragraph appended to either twin")):
+    OBLIGATIONS.append(Obl(name=_fn, module="h_partclone", func=_fn, shadow=True, timeout=300, replay="r_h_partclone:" + _fn, weight=_secs, bounds=_b,
+                           encodes=["src/odfdo/xmlpart.py:XmlPart.clone,root,body", "src/odfdo/container.py:Container.clone", "src/odfdo/meta.py:Meta.generator,set_generator_default,title"],
+                           stubs=["/verif/shadow/lxml (symdom)", "memdoc.MemContainer: dict-backed subclass of Container handed to Document(container)"]))
